@@ -30,6 +30,9 @@ _add("C14", *_REACHT, "Pfdl.Props.C14.ids_consecutive", "Pfdl.Props.C14.unique_s
 _add("C08", *_REACH, "Pfdl.Props.C08.accept_iff", "Pfdl.Props.C08.accept_iff_partial", "Pfdl.Props.C08.accept_iff_full_false",
      "Pfdl.Props.C08.reject_noop", "Pfdl.Props.C08.as_if_never_sent", "Pfdl.Props.C08.start_idempotent",
      "Pfdl.Props.C08.invalid_inert")
+# C08 at the net layer (fire_event as the code does it, also when it is called re-entrantly)
+_add("C08", "Pfdl.Net.C08.refused_no_effect", "Pfdl.Net.C08.fire_refused", "Pfdl.Net.C08.start_again_no_effect",
+     "Pfdl.Net.C08.erased_before_delivery")
 _ALL = ["Pfdl.Sched.runOps_all"]
 _add("C02", "Pfdl.Props.C02.block_in_order", "Pfdl.Props.C02.block_handover", "Pfdl.Props.C02.block_end", "Pfdl.Props.C02.rest_shrinks")
 _add("C03", "Pfdl.Props.C03.fork_all_at_once", "Pfdl.Props.C03.branches_independent", "Pfdl.Props.C03.join_then_continue",
